@@ -1,5 +1,8 @@
 import Mltwist.Lemmas.ComposeStartup
 import Mltwist.Lemmas.ComposeListingRun
+import Mltwist.Lemmas.ComposeUI
+import Mltwist.Lemmas.ComposeUICoupled
+import Mltwist.Lemmas.ComposeAddr
 import Mltwist.Props.C03
 import Mltwist.Props.C23
 import Mltwist.Props.C31
@@ -23,8 +26,15 @@ SEAM 5 (C21 ⇒ C08 ⇒ C07): `parsed_is_wellformed`, `newCode_establishes_inv`,
 SEAM 4 (C26 over the real `Deps.newCode`): `startup_real_eq`, `startup_real_total`, `startup_ui_started`.
 SEAM 1 (C03 over the real code model): `lookup_exact`, `code_view_is_lifting`, `emulator_refines`,
         `emulator_refines_after_startup`.
+SEAM 2 (C22 over the real code model and the real emulator): `memory_coherence`, `real_emulator_lawful`,
+        `step_never_panics_is_false`, `session_never_panics_real`, `session_never_panics_after_startup`,
+        `session_panics_only_out_of_domain`, `view_prints_real`, `session_invariants`,
+        `ui_listing_reflects_real_code`, `ui_emulator_runs_on_current_code`.
+        More vocabulary: `ofMem m` the `MemView.Mem` of a stack of memories; `ESt` the emulator object;
+        `emuOps honest bs cv` the emulator parameter (`honest = false`: SCOPED — a step that leaves the domain of
+        C14 is the error of `Step`); `EGood`; `paramsAt`; `RUI`, `realSession`; `SessionOOD`.
 SEAM 3 (C23/C31 over the real code model): `real_ops_lawful`, `real_step_tracks`, `listing_reflects_real_code`,
-        `rejected_changes_nothing_real`, `navigation_lands_real`.
+        `rejected_changes_nothing_real`, `navigation_lands_real`, `entrypoint_lands_real`, `noTop_real`.
         More vocabulary: `listingOf info c` the `Listing.Code` a `Deps.Code` shows; `opsAt info c` the code
         operations at the real state `c`; `nextDeps c st cmd` the real state after a command; `RSt`/`realStep`/
         `realRun`/`RInv` the disassembler mode over the real model.
@@ -270,5 +280,243 @@ theorem navigation_lands_real (info : Info) (r : RSt) (hr : RInv info r) :
     · rw [hr.coupled] at a1 a3 a4
       exact Or.inl ⟨hs, k', j, b, x, a1, a2, a3, a4⟩
     · exact Or.inr ⟨hs, by rw [hst]⟩
+
+/-- C31 `entrypoint_lands` over the real code WITHOUT its assumption `AddrWF` ("concerns the code model
+underneath"): for the view of a real code satisfying C07's invariant, none of whose blocks ends at `2^64`, the
+address assumptions are theorems (`addrWF_listingOf`), so `entrypoint` puts the cursor on the row of THE instruction
+of the current real code whose current address is the entry point, or fails and changes nothing when there is none -/
+theorem entrypoint_lands_real (info : Info) (r : RSt) (hr : RInv info r) (hn : NoTop r.deps) :
+    Listing.Spec.AddrWF (listingOf info r.deps) ∧
+    ∃ s st', Listing.step (opsAt info r.deps) r.st .entrypoint = some (s, st') ∧ st'.lines = r.st.lines ∧
+      st'.code = r.st.code ∧
+      Listing.Spec.Lands (Listing.Spec.expectEntry (listingOf info r.deps)) (s = .ok) r.st.cursor.value
+        st'.cursor.value := by
+  have ha := addrWF_listingOf info hr.deps hn
+  refine ⟨ha, ?_⟩
+  obtain ⟨s, st', h1, k, h2⟩ := Lemmas.Listing.entry_spec (opsAt info r.deps) r.st hr.listing (hr.coupled ▸ ha)
+  rw [hr.coupled] at h2
+  exact ⟨s, st', h1, k.lines, k.code, h2⟩
+
+/-- `NoTop` holds for the code start-up builds (C20 `Fits`: no section reaches `2^64`) and is kept by every
+history of moves -/
+theorem noTop_real {image : List Elf.Block} (ht : Elf.Spec.Tidy image)
+    {is : List (Parse.Ins (Riscv.Entry × Riscv.Ins))} (h : Parse.parseRv64 image = .ok is) (entry : Nat)
+    (c0 : Deps.Code) (hc : Deps.newCode entry (rawOf is) = .ok c0) (ops : List Deps.Op) :
+    NoTop (c0.run ops) := by
+  have h0 := inv_of_parse ht h entry c0 hc
+  obtain ⟨h1, h2⟩ := h0.run ops
+  exact noTop_sameCode h0 h1 h2 (noTop_of_parse ht h entry c0 hc)
+
+/-! ### seam 2: C22 over the real dependency model and the real emulator -/
+
+open Mltwist.UI Mltwist.Lemmas.UI in
+/-- THE COHERENCE of byte memory and sparse memory (and any overlay of them) with the memory view: what the NOTES
+of C22 list as "not composed anywhere yet".  If every layer satisfies its invariant (C14 `Sparse.Inv`, C15
+`BytesSpec.Inv`; C16 `Mem.Inv`), stores constants and no present byte sits at `2^64 - 1`, then the memory the
+memory view reads (`ofMem`) is coherent in the sense of C32 with the layered byte map of C16: `Blocks()` is a
+normal, bounded list of exactly the present addresses and every present address loads as its byte -/
+theorem memory_coherence (m : Overlay.Mem) (hinv : m.Inv) (hc : AllConst m) (hb : PresentBounded m.abs) :
+    ∃ bl, Lemmas.MemView.NormalR bl ∧ Lemmas.MemView.Bounded bl ∧
+      Lemmas.MemView.Coh (ofMem m) bl (memBytes m) ∧ ∀ a, Lemmas.MemView.MemR a bl ↔ m.abs a ≠ none :=
+  ofMem_coh m hinv hc hb
+
+open Mltwist.UI Mltwist.Lemmas.UI in
+/-- EVERY ASSUMPTION OF C22 ON THE EMULATOR (`EmuLawful`) is a theorem for the scoped instance over the real
+emulator model: `step_safe` (C03 `never_panics_step`), `ip_some` (C03/C04), `width_byte` (`expr.Width` is `uint8`),
+`regs_oneIP` (C18: the register file is a map), `mem_ok` (`memory_coherence`), `init_good`, `store_good` -/
+theorem real_emulator_lawful {image bs : List BytesMem.Block} (hnb : BytesMem.newBytes image = .ok bs)
+    (hbb : ∀ x, BytesSpec.ofBlocks bs x ≠ none → x + 1 < 2 ^ 64) (cv : CodeView) (hwf : CodeWF cv) :
+    EmuLawful (emuOps false bs cv) EGood :=
+  emu_lawful hnb hbb cv hwf
+
+/-- … but NOT for the emulator as it is: `StepNeverPanics` is false.  `lb x3,-1(x0)` — a one-byte load from
+address `2^64 - 1` — makes `Emulator.step` panic from the state the tool starts with, for every provider (the
+interval `[2^64 - 1, 0)` reaches the interval tree).  The real `Emulator.Step` panics on the same program (NOTES:
+reproduced with the existing harness).  C03/C04/C14/C16 exclude this by their scope `addr + w < 2^64`. -/
+theorem step_never_panics_is_false :
+    (liftCode topBlocks).map (fun code =>
+      match step (provOf []) code (Emulator.new 4096 (toolState [] [])) with
+      | .panic _ => true
+      | _ => false) = some true :=
+  honest_panics
+
+open Mltwist.UI Mltwist.Lemmas.UI in
+/-- C22 `session_never_panics` FOR THE INSTANTIATED UI (scoped emulator).  Code operations: the real dependency
+model; emulator: the real emulator model on `Overlay(Bytes(bs), Sparse)`; left as parameters: the regular
+expression library `rx`, the texts/bytes `info` of the instructions, and the input.  For every input the session
+ends by `quit`, at the end of the input or in a starving value prompt — never in a panic. -/
+theorem session_never_panics_real (info : Info) {bs : List BytesMem.Block} (rx : Str → Option (String → Bool))
+    {d0 : Deps.Code} (henv : EnvOK bs d0) (hd : CInv d0) (inp : Input) :
+    realSession false info bs rx d0 inp = .exited ∨ (∃ a, realSession false info bs rx d0 inp = .eof a) ∨
+      realSession false info bs rx d0 inp = .hang :=
+  realSession_safe info rx henv hd inp
+
+open Mltwist.UI Mltwist.Lemmas.UI in
+/-- … with every hypothesis about the program discharged by start-up (C26): for every argument count and every
+`debug/elf` view such that start-up reaches the UI, the session on the code and the byte memory that start-up
+built never panics (scoped emulator), whatever the regular expression library answers and whatever is typed -/
+theorem session_never_panics_after_startup (lim nargs : Nat) (v : Option Elf.View)
+    (hv : ∀ w, v = some w → Elf.Spec.ViewOK w) (hui : Startup.run lim nargs v = .ui) :
+    ∃ w code mem is c bs, v = some w ∧ Started lim w code mem is c bs ∧
+      ∀ (info : Info) (rx : Str → Option (String → Bool)) (inp : Input),
+        realSession false info bs rx c inp = .exited ∨ (∃ a, realSession false info bs rx c inp = .eof a) ∨
+          realSession false info bs rx c inp = .hang := by
+  obtain ⟨_, w, code, mem, is, c, bs, rfl, hs⟩ := run_ui_inv lim nargs v hv hui
+  obtain ⟨henv, hc⟩ := envOK_of_started hs
+  exact ⟨w, code, mem, is, c, bs, rfl, hs, fun info rx inp => realSession_safe info rx henv hc inp⟩
+
+open Mltwist.UI Mltwist.Lemmas.UI in
+/-- C22 FOR THE INSTANTIATED UI WITH THE EMULATOR AS IT IS: the session ends by `quit`, at the end of the input or
+in a starving value prompt — OR, at some call of `processCommand`, the user executes `step` in the emulator mode and
+(for the values typed at the prompts) the replay of that step performs a memory access outside the domain of C14,
+`addr + w ≥ 2^64` (`SessionOOD`).  That is the only way to a panic, and it is one (`step_never_panics_is_false`). -/
+theorem session_panics_only_out_of_domain (info : Info) {bs : List BytesMem.Block}
+    (rx : Str → Option (String → Bool)) {d0 : Deps.Code} (henv : EnvOK bs d0) (hd : CInv d0) (inp : Input) :
+    realSession true info bs rx d0 inp = .exited ∨ (∃ a, realSession true info bs rx d0 inp = .eof a) ∨
+      realSession true info bs rx d0 inp = .hang ∨
+      ∃ ui, UI.init (listingOf info d0) = some ui ∧ SessionOOD info bs rx ⟨d0, ui⟩ inp :=
+  realSession_honest info rx henv hd inp
+
+open Mltwist.UI Mltwist.Lemmas.UI in
+/-- every call of `processCommand` on the instantiated UI: no panic, every line answered, the invariants (C07's on
+the real code, the UI's) hold again, the real code keeps its instructions, edges and block ranges -/
+theorem line_answered_real (info : Info) {bs : List BytesMem.Block} (rx : Str → Option (String → Bool))
+    {d0 : Deps.Code} (henv : EnvOK bs d0) (r : RUI) (hr : SInv d0 r) (inp : Input) :
+    uiStep (paramsAt false info bs rx r.deps) r.ui inp ≠ .panic ∧
+    ∀ a ui' rest, uiStep (paramsAt false info bs rx r.deps) r.ui inp = .cont a ui' rest →
+      rest.length < inp.length ∧ (a = .skipped ↔ inp.head? = some []) ∧
+      SInv d0 ⟨uiNextDeps r.deps r.ui inp, ui'⟩ := by
+  obtain ⟨hs, hnext⟩ := real_step_safe info rx henv r hr inp
+  refine ⟨fun hp => by rw [hp] at hs; exact hs, fun a ui' rest hc => ?_⟩
+  have h2 := hnext a ui' rest hc
+  rw [hc] at hs
+  exact ⟨hs.2.1, hs.2.2, h2⟩
+
+open Mltwist.UI Mltwist.Lemmas.UI in
+/-- the screen of every state of the composed system prints without a panic at every terminal height (C24/C32) -/
+theorem view_prints_real (info : Info) {bs : List BytesMem.Block} (rx : Str → Option (String → Bool))
+    {d0 : Deps.Code} (henv : EnvOK bs d0) (r : RUI) (hr : SInv d0 r) (n : Nat) :
+    (renderTop (paramsAt false info bs rx r.deps).eops r.ui n).status ≠ .panic ∧
+      (renderTop (paramsAt false info bs rx r.deps).eops r.ui n).status ≠ .outOfFuel :=
+  renderTop_safe _ (paramsAt_lawful info rx henv hr.deps hr.same).2 r.ui hr.ui n
+
+open Mltwist.UI Mltwist.Lemmas.UI in
+/-- IN EVERY STATE OF EVERY SESSION of the instantiated UI (`RReach`: the state after `consoleui.New` and every state
+`processCommand` returns to `Run`): C07's invariant holds on the real code, which still has the instructions, edges
+and block ranges it started with; the invariant of the UI (C22/C23) holds; and the mode stack is `[disassembler]`,
+`[emulator, disassembler]` or `[memory view, emulator, disassembler]`, coupled with the real code (`Shaped`) -/
+theorem session_invariants (info : Info) {bs : List BytesMem.Block} (rx : Str → Option (String → Bool))
+    {d0 : Deps.Code} (henv : EnvOK bs d0) (hd : CInv d0) (r : RUI) (h : RReach info bs rx d0 r) :
+    CInv r.deps ∧ SameCode d0 r.deps ∧ UIInv EGood r.ui ∧ Shaped info r.deps r.ui.stack := by
+  obtain ⟨h1, h2⟩ := reach_inv info rx henv hd r h
+  exact ⟨h1.deps, h1.same, h1.ui, h2⟩
+
+open Mltwist.UI Mltwist.Lemmas.UI in
+/-- C23 INSIDE THE UI, OVER THE REAL CODE: whenever the disassembler mode is the current mode of a session, its code
+state is the view of the CURRENT real code — so the operations its `move` command calls are the real `code.Move` /
+`code.Index(b).Move` (`real_ops_are_real`) — and its listing is, apart from the marks, the fresh rendering of the
+current real code -/
+theorem ui_listing_reflects_real_code (info : Info) {bs : List BytesMem.Block} (rx : Str → Option (String → Bool))
+    {d0 : Deps.Code} (henv : EnvOK bs d0) (hd : CInv d0) (r : RUI) (h : RReach info bs rx d0 r)
+    (top : NamedMode ESt) (below : List (NamedMode ESt)) (st : Listing.St) (hst : r.ui.stack = top :: below)
+    (hm : top.mode = .dis st) :
+    st.code = listingOf info r.deps ∧
+      Listing.Spec.shown st.lines = Listing.Spec.rows (listingOf info r.deps) := by
+  obtain ⟨_, _, hui, hsh⟩ := session_invariants info rx henv hd r h
+  have hinv : LInv st := by
+    have := (hui.2 top (by rw [hst]; simp)).2
+    rw [hm] at this
+    exact this
+  have hcode : st.code = listingOf info r.deps := by
+    rw [hst] at hsh
+    cases hsh with
+    | dis hdis =>
+      obtain ⟨st', hm', hc⟩ := hdis
+      rw [hm] at hm'
+      cases hm'
+      exact hc
+    | emu hemu _ => obtain ⟨e, hm', _⟩ := hemu; rw [hm] at hm'; cases hm'
+    | mem hmem _ _ => obtain ⟨m, v, hm'⟩ := hmem; rw [hm] at hm'; cases hm'
+  exact ⟨hcode, hcode ▸ (Lemmas.Listing.inv_shows st hinv).1⟩
+
+open Mltwist.UI Mltwist.Lemmas.UI in
+/-- … and whenever the emulator mode is the current mode, its emulator runs on the code view of the CURRENT real
+code (the code cannot change while an emulator exists), its own listing shows the current real code, and its state
+is good (`EGood`: C03 `CodeWF`, C04 `Ready`, …) -/
+theorem ui_emulator_runs_on_current_code (info : Info) {bs : List BytesMem.Block}
+    (rx : Str → Option (String → Bool)) {d0 : Deps.Code} (henv : EnvOK bs d0) (hd : CInv d0) (r : RUI)
+    (h : RReach info bs rx d0 r) (top : NamedMode ESt) (below : List (NamedMode ESt)) (e : EmuMode ESt)
+    (hst : r.ui.stack = top :: below) (hm : top.mode = .emu e) :
+    e.emu.code = codeViewOf r.deps ∧ e.view.code = listingOf info r.deps ∧ EGood e.emu := by
+  obtain ⟨_, _, hui, hsh⟩ := session_invariants info rx henv hd r h
+  have hg : EGood e.emu := by
+    have := (hui.2 top (by rw [hst]; simp)).2
+    rw [hm] at this
+    exact this.2
+  rw [hst] at hsh
+  cases hsh with
+  | dis hdis => obtain ⟨st', hm', _⟩ := hdis; rw [hm] at hm'; cases hm'
+  | emu hemu _ =>
+    obtain ⟨e', hm', hv, hc⟩ := hemu
+    rw [hm] at hm'
+    cases hm'
+    exact ⟨hc, hv, hg⟩
+  | mem hmem _ _ => obtain ⟨m, v, hm'⟩ := hmem; rw [hm] at hm'; cases hm'
+
+/-- the `info` the real program shows: the disassembly text of C25 (`Entry.text`, the model of
+`instruction.String()`) and the bytes of the parsed instruction with that original address -/
+def infoOfParsed (is : List (Parse.Ins (Riscv.Entry × Riscv.Ins))) : Info := fun a =>
+  match is.find? fun i => i.addr == a with
+  | some i => (i.details.1.text i.details.2, i.bytes)
+  | none => ("", [])
+
+/-- … every instruction it describes has four bytes: the listing's modelling assumption "instructions have at
+least one byte" (`byteStr`) is a theorem of C21 -/
+theorem infoOfParsed_bytes {image : List Elf.Block} (ht : Elf.Spec.Tidy image)
+    {is : List (Parse.Ins (Riscv.Entry × Riscv.Ins))} (h : Parse.parseRv64 image = .ok is) :
+    ∀ i ∈ is, ((infoOfParsed is) i.addr).2.length = 4 := by
+  intro i hi
+  have hta := (Props.C21.parse_ok_iff _ (Props.C21.rv_honest _) image ht.1 is).1 h
+  obtain ⟨l1, _⟩ := tilingAll_layout hta ht
+  unfold infoOfParsed
+  cases hf : is.find? fun j => j.addr == i.addr with
+  | none =>
+    have := List.find?_eq_none.1 hf i hi
+    simp at this
+  | some j => exact (l1 j (List.mem_of_find?_eq_some hf)).1
+
+/-! ### non-vacuity -/
+
+/-- `addi x1,x0,1 ; addi x2,x0,2 ; jal x0,0` at 0x1000 (the jump targets itself: two blocks) -/
+def exImage : List Elf.Block :=
+  [(4096, [0x93, 0x00, 0x10, 0x00, 0x13, 0x01, 0x20, 0x00, 0x6f, 0x00, 0x00, 0x00])]
+
+/-- the real dependency model start-up builds for it: `parser.Parse`, then `deps.NewCode` at entry 0x1000 -/
+def exCode : Option Deps.Code :=
+  match Parse.parseRv64 exImage with
+  | .ok is => (Deps.newCode 4096 (rawOf is)).toOption
+  | .error _ => none
+
+def exInfo : Info := fun a => (toString a, [0, 0, 0, 0])
+
+example : Elf.Spec.Tidy exImage := by decide
+
+set_option maxRecDepth 100000 in
+/-- seams 1/5: the chain succeeds; the code view of the real model is `liftCode` of the image; `Code.Address` +
+`Block.Address` find the instruction at 0x1004 and report "not found" inside an instruction -/
+example : (exCode.map fun c => ((codeViewOf c).map (·.addr), Emulator.liftCode exImage == some (codeViewOf c),
+      (instruction c 4100).map (·.map (·.currAddr)), instruction c 4102)) =
+    some ([4096, 4100, 4104], true, some (some 4100), some none) := by decide +kernel
+
+set_option maxRecDepth 100000 in
+/-- seam 3: on the real model, `move 1 2` swaps the two independent `addi` (the REAL code changes: the instruction
+from 0x1004 now sits at 0x1000), `move 3 1` (from the blank row) is rejected and changes nothing but marks, `goto 2`
+moves the cursor; the listing state shows the real code afterwards -/
+example : (exCode.bind fun c => (realRun exInfo (RSt.init exInfo c) [.move 1 2, .move 3 1, .goto 2]).map fun r =>
+      (r.deps.store.map fun b => b.seq.map fun i => (i.origAddr, i.currAddr),
+        r.st.code == listingOf exInfo r.deps,
+        r.st.lines.lines.map (·.mark), r.st.cursor.value)) =
+    some ([[(4100, 4096), (4096, 4100)], [(4104, 4104)]], true, ["", "!>", "", "!<", "", "", ""], 2) := by
+  decide +kernel
 
 end Mltwist.Props.Compose
